@@ -37,7 +37,7 @@ theorem switchHdrOp_shape {hdr : Hdr} {s : St} {o : Op} {s' : St} (h : switchHdr
 
 theorem switch_pm (cx : Cx) (fuel : Nat) (env : Src.Env) (he : EnvOK cx env) (hdr : Hdr) (cs : Cases)
     (run : Nat → List BP → SwSt → M SwSt) (hn : nameOK hdr.name = true) (hne : Beh.endsFlow hdr.name = false)
-    (hdef : countDefaults cs ≤ 1) (hrun : CasesC cx fuel hdr.name cs run) :
+    (hdef : countDefaults cs ≤ 1) (hrun : CasesC cx fuel hdr.name true cs run) :
     PM cx (switchOf hdr cs run) (fun k b => Src.tr fuel [] env (.switch (hdrEv hdr) (toSrcCases hdr.name cs)) k b) env := by
   intro s items s' h
   cases cs with
@@ -126,7 +126,7 @@ theorem switch_pm (cx : Cx) (fuel : Nat) (env : Src.Env) (he : EnvOK cx env) (hd
   simp only [pure_ok, Prod.mk.injEq] at h8
   obtain ⟨rfl, rfl⟩ := h8
   have hwait' : rr.waiting = [] := by simpa using hwait
-  have hS := hsem hwait'
+  have hS := hsem hwait' False (fun _ hf => hf)
   simp only [wSrc] at hS
   have hstk : SameStk s s' := ((((sameStk_tickedLbl s 1).trans (sameStk_tickedLbl _ 1)).trans e3).trans e5).trans (e6.trans e7)
   have hL5 : s5.loops = s.loops := (((((sameStk_tickedLbl s 1).trans (sameStk_tickedLbl _ 1)).trans e3).trans e5).trans e6).1
